@@ -517,7 +517,7 @@ enum RefErr {
 
 /// the places where RSSL is known to deviate from C; used only to *classify* a disagreement: a disagreement
 /// is attributed to a set of deviations only if the reference with exactly those switched on reproduces the
-/// real output
+/// real output (`judge_with`: exact mimicry, no other way of recognising a class)
 #[derive(Clone, Copy, Default, PartialEq, Debug)]
 struct Dev {
     /// a function-like macro name followed by a line end before `(` is not an invocation
@@ -563,6 +563,20 @@ const DEV_NAMES: &[&str] = &[
     "function-name-before-vanished-macro-invoked",
     "invocation-spans-file-boundary",
 ];
+
+/// the deviation switches that are offered as explanations of a disagreement.  `paste-in-api-define` (4) and
+/// `duplicate-api-define` (32) were fixed in 9f7cdb8, `line-end-before-parenthesis` (1) in f08088c,
+/// `pragma-once-by-include-name` (64) in d66a6d7: not offered any more (a regression shows up as `unexplained`)
+const OFFERED: u32 = ((1 << DEV_NAMES.len()) - 1) & !(1 | 4 | 32 | 64);
+
+/// does a run of the reference reproduce the real outcome?  Token for token; a rejection is reproduced by a rejection
+fn same_outcome(real: &Real, alt: &Result<Vec<String>, RefErr>) -> bool {
+    match (real, alt) {
+        (Real::Ok(t), Ok(e)) => t == e,
+        (Real::Err(_), Err(_)) => true,
+        _ => false,
+    }
+}
 
 impl Dev {
     fn from_bits(b: u32) -> Dev {
@@ -716,14 +730,60 @@ impl<'a> Reference<'a> {
 
     /// Prosser's `expand`
     fn expand(&mut self, mut ts: Vec<RTok>) -> Result<Vec<RTok>, RefErr> {
-        let mut out = Vec::new();
+        let mut out: Vec<RTok> = Vec::new();
         // `ts` is kept reversed so that the head is popped cheaply
         ts.reverse();
-        let markers = self.dev.reinvoke_painted || self.dev.reinvoke_deferred;
+        let markers = self.dev.reinvoke_painted || self.dev.reinvoke_deferred || self.dev.no_placemarker;
         while let Some(t) = ts.pop() {
             self.tick()?;
             let name = match &t.k {
                 RK::Id(n) => n.clone(),
+                RK::Paste => {
+                    // RSSL mimicry (`no_placemarker` only: `subst` left the `##` of this replacement list in place): the
+                    // paste is carried out while the replacement list is rescanned, on whatever stands next to the `##`
+                    // by then -- everything to its left has been expanded already (`find_single_macro` reports the
+                    // first operation from the left).  The operands are looked for inside the replacement list only.
+                    let start = ts
+                        .iter()
+                        .rev()
+                        .find_map(|x| if let RK::RegionEnd(_, s) = &x.k { Some(*s) } else { None })
+                        .unwrap_or(0);
+                    let mut l = out.len();
+                    let mut left = None;
+                    while l > start {
+                        l -= 1;
+                        if out[l].k != RK::Nl {
+                            left = Some(l);
+                            break;
+                        }
+                    }
+                    let l = match left {
+                        Some(l) => l,
+                        None => return Err(RefErr::PasteAtEdge), // ConcatMissingLeftToken
+                    };
+                    let mut j = ts.len();
+                    let mut right = None;
+                    while j > 0 {
+                        match ts[j - 1].k {
+                            RK::Nl => j -= 1,
+                            RK::RegionEnd(..) => break,
+                            _ => {
+                                right = Some(j - 1);
+                                break;
+                            }
+                        }
+                    }
+                    let r = match right {
+                        Some(r) => r,
+                        None => return Err(RefErr::PasteAtEdge), // ConcatMissingRightToken
+                    };
+                    let merged = self.paste(&out[l], &ts[r])?;
+                    ts.truncate(r);
+                    out.truncate(l);
+                    // the merged token is read again, with the macros disabled that are disabled for this replacement list
+                    ts.push(RTok { k: merged.k, hs: t.hs.clone() });
+                    continue;
+                }
                 RK::RegionEnd(last_fn, start) => {
                     // RSSL mimicry: the replacement list of an invocation has been expanded completely.  If tokens
                     // remain in the enclosing list (the next entry is not another end marker), RSSL looks at the
@@ -885,6 +945,7 @@ impl<'a> Reference<'a> {
             }
         }
         // phase 1: parameter replacement
+        let mut needs_placemarker = false;
         let mut seq: Vec<RTok> = Vec::new();
         let n = m.body.len();
         for (i, k) in m.body.iter().enumerate() {
@@ -898,6 +959,7 @@ impl<'a> Reference<'a> {
                     let real: Vec<RTok> = raw.into_iter().filter(|a| a.k != RK::Nl || self.dev.newline_blocks_call).collect();
                     if real.iter().all(|a| a.k == RK::Nl) {
                         self.notes.used_placemarker = true;
+                        needs_placemarker = true;
                         if !self.dev.no_placemarker {
                             seq.push(RTok { k: RK::Placemarker, hs: empty.clone() });
                         }
@@ -919,9 +981,12 @@ impl<'a> Reference<'a> {
                 seq.push(RTok { k: k.clone(), hs: empty.clone() });
             }
         }
+        // RSSL mimicry: where C needs a placemarker RSSL has nothing to paste with, and it does not paste before the
+        // rescan either: the `##` stays in the list and is carried out by `expand` (on this instance of the list only)
+        let deferred = self.dev.no_placemarker && needs_placemarker;
         // phase 2: pastes, left to right
         let mut i = 0;
-        while i < seq.len() {
+        while !deferred && i < seq.len() {
             if seq[i].k != RK::Paste {
                 i += 1;
                 continue;
@@ -1671,32 +1736,8 @@ fn judge(p: &Program, out: &mut Out, hist: &mut Hist) {
     judge_with(p, None, out, hist)
 }
 
-/// `real`: the result of the real preprocessor if it was obtained elsewhere (worker process)
-fn judge_with(p: &Program, real: Option<Real>, out: &mut Out, hist: &mut Hist) {
-    let req = p.encode();
-    if std::env::var("C12_TRACE").is_ok() {
-        eprintln!("TRACE {}", req);
-    }
-    if let Err(why) = program_faithful(p) {
-        hist.add("skip:unfaithful-rendering");
-        out.case(&req, "-", &format!("SKIP:{}", why));
-        return;
-    }
-    // Without persistent paint (deviation `argument-repainted`) some small programs expand to millions of tokens
-    // in the real code (and in the model, which mirrors it): predict that with the reference run in RSSL-like mode
-    // under a small budget and do not run such a program in-process.
-    if real.is_none() && predicted_to_explode(p) {
-        hist.add("not-run:expansion-explodes-without-persistent-paint");
-        if std::env::var("C12_TRACE").is_ok() {
-            eprintln!("EXPLODES {}", req);
-        }
-        return;
-    }
-    let real = match real {
-        Some(r) => r,
-        None => run_real(p),
-    };
-    let obs = match &real {
+fn obs_of(real: &Real) -> String {
+    match real {
         Real::Ok(t) => format!("ok {}", t.join(" ")).trim_end().to_string(),
         Real::Err(e) => format!("err {}", e),
         Real::Panic(m) => {
@@ -1709,10 +1750,14 @@ fn judge_with(p: &Program, real: Option<Real>, out: &mut Out, hist: &mut Hist) {
             let msg = msg.split("\\n").next().unwrap_or("");
             format!("panic {}: {}", file, msg)
         }
-    };
+    }
+}
+
+/// the oracle: the real outcome against the reference C preprocessor
+fn oracle_of(p: &Program, real: &Real, hist: &mut Hist) -> String {
     let mut notes = RefNotes::default();
     let expected = run_reference(p, Dev::default(), &mut notes);
-    let oracle = match (&real, &expected) {
+    let oracle = match (real, &expected) {
         (Real::Panic(m), _) => {
             hist.add("real:panic");
             format!("FAIL:panic {}", m)
@@ -1747,69 +1792,47 @@ fn judge_with(p: &Program, real: Option<Real>, out: &mut Out, hist: &mut Hist) {
                 Ok(e) => format!("ok {}", e.join(" ")),
                 Err(e) => format!("reject {:?}", e),
             };
-            let mut class = "unexplained".to_string();
-            // smallest set of deviations that reproduces the real output
+            // A known deviation class explains a disagreement only by EXACT mimicry: the reference run with the
+            // mimic switches of the named classes (and no others) reproduces the real output token for token (or is
+            // rejected where the real code rejects).  The smallest such set names the class; if no set of the
+            // offered switches reproduces the output the disagreement is `unexplained` (an unlisted finding).
             let mut best: Option<u32> = None;
-            // did the program leave the property's subset once some known deviations are taken?
-            let mut oos_under_deviations = false;
-            'search: for k in 1..=3u32 {
+            'search: for k in 1..=OFFERED.count_ones() {
                 for bits in 1u32..(1 << DEV_NAMES.len()) {
-                    // `paste-in-api-define` (4) and `duplicate-api-define` (32) were fixed in 9f7cdb8,
-                    // `line-end-before-parenthesis` (1) in f08088c, `pragma-once-by-include-name` (64) in d66a6d7: not
-                    // offered as explanations any more (a regression shows up as `unexplained`)
-                    if bits.count_ones() != k || bits & (1 | 4 | 32 | 64) != 0 {
+                    if bits.count_ones() != k || bits & !OFFERED != 0 {
                         continue;
                     }
                     let mut n2 = RefNotes::default();
                     let alt = run_reference(p, Dev::from_bits(bits), &mut n2);
-                    if !n2.out_of_subset.is_empty() {
-                        oos_under_deviations = true;
-                    }
-                    let same = match (&real, &alt) {
-                        (Real::Ok(t), Ok(e)) => t == e,
-                        (Real::Err(_), Err(_)) => true,
-                        _ => false,
-                    };
-                    if same {
+                    if same_outcome(real, &alt) {
                         best = Some(bits);
                         break 'search;
                     }
                 }
             }
-            // an unused argument that RSSL expands anyway may itself need a placemarker / meet a painted name
-            let mut ne = RefNotes::default();
-            let _ = run_reference(p, Dev::from_bits(8), &mut ne);
-            if let Some(b) = best {
-                class = Dev::names(b);
-            } else if notes.painted_call || ne.painted_call {
-                // C never expands a painted name again; RSSL only remembers the macro it applied last
-                // (`last_macro_function_index`) and re-enables everything else once a body has been rescanned
-                class = if notes.painted_call {
-                    "painted-function-name-reinvoked".to_string()
-                } else {
-                    format!("{}+painted-function-name-reinvoked", DEV_NAMES[3])
-                };
-            } else if !notes.used_placemarker && ne.used_placemarker {
-                class = format!("{}+{}", DEV_NAMES[1], DEV_NAMES[3]);
-            } else if false {
-                // C never expands a painted name again; RSSL only remembers the macro it applied last
-                // (`last_macro_function_index`) and re-enables everything else once a body has been rescanned
-                class = "painted-function-name-reinvoked".to_string();
-            } else if notes.used_placemarker {
-                // C needed a placemarker here; RSSL has none and pastes (or expands) whatever is adjacent, in
-                // the order of its rescan, which the switch above reproduces only for the simple shapes
-                class = DEV_NAMES[1].to_string();
-            }
-            let mut na = class == "unexplained" && oos_under_deviations;
-            if class == "unexplained" && !na {
-                // an unused argument that RSSL expands anyway may itself lie outside the subset
-                for i in 0..DEV_NAMES.len() {
+            // The oracle does not apply when RSSL itself leaves the property's subset on this program: RSSL expands
+            // every argument (also an unused one, also one that stands next to `##`), so a `##` operand that holds a
+            // macro name -- outside the subset -- may be met only on RSSL's path.  Judged on the reference run with
+            // the argument expansion of RSSL alone, and with every offered switch on (the closest rendering of RSSL's path).
+            let mut na = false;
+            if best.is_none() {
+                for bits in [8u32, OFFERED] {
                     let mut n2 = RefNotes::default();
-                    let _ = run_reference(p, Dev::from_bits(1 << i), &mut n2);
+                    let _ = run_reference(p, Dev::from_bits(bits), &mut n2);
                     if !n2.out_of_subset.is_empty() {
                         na = true;
                     }
                 }
+            }
+            let class = match best {
+                Some(b) => Dev::names(b),
+                None => "unexplained".to_string(),
+            };
+            if best.is_some() {
+                hist.add("classified-by-exact-mimicry");
+            }
+            if std::env::var("C12_WHY").is_ok() && best.is_none() {
+                eprintln!("UNCLASSIFIED {} {}", if na { "not-applicable" } else { "unexplained" }, p.encode());
             }
             if na {
                 hist.add("oracle-not-applicable:outside-the-subset-once-a-known-deviation-is-taken");
@@ -1820,6 +1843,212 @@ fn judge_with(p: &Program, real: Option<Real>, out: &mut Out, hist: &mut Hist) {
             }
         }
     };
+    oracle
+}
+
+/// the real preprocessor on one program, in a worker process under a time and memory limit
+fn run_real_in_worker(p: &Program) -> Option<Real> {
+    if program_faithful(p).is_err() || predicted_to_explode(p) {
+        return None;
+    }
+    let exe = std::env::current_exe().ok()?.display().to_string();
+    let tmp = std::env::temp_dir().join(format!("c12-one-{}.txt", std::process::id()));
+    std::fs::write(&tmp, p.encode() + "\n").ok()?;
+    let res = std::process::Command::new("sh")
+        .arg("-c")
+        .arg(format!("ulimit -v 3000000; exec timeout 4 {} c12 --requests {}", exe, tmp.display()))
+        .env("C12_WORKER", "1")
+        .stderr(std::process::Stdio::null())
+        .output();
+    let _ = std::fs::remove_file(&tmp);
+    let text = String::from_utf8_lossy(&res.ok()?.stdout).to_string();
+    text.lines().find_map(decode_real)
+}
+
+/// parentheses balanced in every `#define` line and over every run of text lines (a smaller program that is not is
+/// another kind of program: an argument list that begins in a replacement list and ends behind it)
+fn parens_balanced(p: &Program) -> bool {
+    fn step(d: &mut i32, t: &Tok) -> bool {
+        match t {
+            Tok::LParen => *d += 1,
+            Tok::RParen => *d -= 1,
+            _ => {}
+        }
+        *d >= 0
+    }
+    for (n, v) in &p.api {
+        let mut d = 0;
+        if !n.iter().chain(v.iter()).all(|t| step(&mut d, t)) || d != 0 {
+            return false;
+        }
+    }
+    for f in &p.files {
+        let mut run = 0;
+        for l in &f.lines {
+            match l {
+                Line::Text(t) => {
+                    if !t.iter().all(|x| step(&mut run, x)) {
+                        return false;
+                    }
+                }
+                Line::Define(t) => {
+                    let mut d = 0;
+                    if run != 0 || !t.iter().all(|x| step(&mut d, x)) || d != 0 {
+                        return false;
+                    }
+                }
+                _ => {
+                    if run != 0 {
+                        return false;
+                    }
+                }
+            }
+        }
+        if run != 0 {
+            return false;
+        }
+    }
+    true
+}
+
+/// greedy shrinking of a program whose difference from C no known deviation reproduces (at most three programs per run)
+fn shrink_unexplained(p: &Program, hist: &mut Hist) -> Option<Program> {
+    use std::sync::atomic::{AtomicU32, Ordering};
+    static DONE: AtomicU32 = AtomicU32::new(0);
+    if DONE.fetch_add(1, Ordering::SeqCst) >= 3 {
+        return None;
+    }
+    hist.add("unexplained:shrunk-in-harness");
+    let still = |q: &Program| -> bool {
+        if q.files.is_empty() || !parens_balanced(q) {
+            return false;
+        }
+        match run_real_in_worker(q) {
+            Some(r) => oracle_of(q, &r, &mut Hist::default()).starts_with("FAIL:differs-from-C[unexplained]"),
+            None => false,
+        }
+    };
+    let mut cur = p.clone();
+    let mut budget = 4000;
+    let mut improved = true;
+    while improved && budget > 0 {
+        improved = false;
+        let mut cands: Vec<Program> = Vec::new();
+        // drop an API define, the last file, a line, a token
+        for i in 0..cur.api.len() {
+            let mut q = cur.clone();
+            q.api.remove(i);
+            cands.push(q);
+        }
+        if cur.files.len() > 1 {
+            let mut q = cur.clone();
+            q.files.pop();
+            cands.push(q);
+        }
+        for fi in 0..cur.files.len() {
+            for li in 0..cur.files[fi].lines.len() {
+                let mut q = cur.clone();
+                q.files[fi].lines.remove(li);
+                cands.push(q);
+            }
+        }
+        for fi in 0..cur.files.len() {
+            for li in 0..cur.files[fi].lines.len() {
+                if let Line::Define(t) | Line::Text(t) = &cur.files[fi].lines[li] {
+                    // a parenthesised group at once, then single tokens
+                    for ti in 0..t.len() {
+                        if t[ti] == Tok::LParen {
+                            let mut d = 0;
+                            for tj in ti..t.len() {
+                                match t[tj] {
+                                    Tok::LParen => d += 1,
+                                    Tok::RParen => d -= 1,
+                                    _ => {}
+                                }
+                                if d == 0 {
+                                    let mut t2 = t.clone();
+                                    t2.drain(ti..=tj);
+                                    let mut q = cur.clone();
+                                    q.files[fi].lines[li] = match &cur.files[fi].lines[li] {
+                                        Line::Define(_) => Line::Define(t2),
+                                        _ => Line::Text(t2),
+                                    };
+                                    cands.push(q);
+                                    break;
+                                }
+                            }
+                        }
+                    }
+                    for ti in 0..t.len() {
+                        if matches!(t[ti], Tok::LParen | Tok::RParen) {
+                            continue;
+                        }
+                        let mut t2 = t.clone();
+                        t2.remove(ti);
+                        let mut q = cur.clone();
+                        q.files[fi].lines[li] = match &cur.files[fi].lines[li] {
+                            Line::Define(_) => Line::Define(t2),
+                            _ => Line::Text(t2),
+                        };
+                        cands.push(q);
+                    }
+                }
+            }
+        }
+        for q in cands {
+            budget -= 1;
+            if budget <= 0 {
+                break;
+            }
+            if still(&q) {
+                cur = q;
+                improved = true;
+                break;
+            }
+        }
+    }
+    Some(cur)
+}
+
+/// `real`: the result of the real preprocessor if it was obtained elsewhere (worker process)
+fn judge_with(p: &Program, real: Option<Real>, out: &mut Out, hist: &mut Hist) {
+    let req = p.encode();
+    if std::env::var("C12_TRACE").is_ok() {
+        eprintln!("TRACE {}", req);
+    }
+    if let Err(why) = program_faithful(p) {
+        hist.add("skip:unfaithful-rendering");
+        out.case(&req, "-", &format!("SKIP:{}", why));
+        return;
+    }
+    // Without persistent paint (deviation `argument-repainted`) some small programs expand to millions of tokens
+    // in the real code (and in the model, which mirrors it): predict that with the reference run in RSSL-like mode
+    // under a small budget and do not run such a program in-process.
+    if real.is_none() && predicted_to_explode(p) {
+        hist.add("not-run:expansion-explodes-without-persistent-paint");
+        if std::env::var("C12_TRACE").is_ok() {
+            eprintln!("EXPLODES {}", req);
+        }
+        return;
+    }
+    let real = match real {
+        Some(r) => r,
+        None => run_real(p),
+    };
+    let obs = obs_of(&real);
+    let oracle = oracle_of(p, &real, hist);
+    if oracle.starts_with("FAIL:differs-from-C[unexplained]") {
+        // a difference from C that no known deviation reproduces: report the smallest program we can find with it first
+        // (the first failing input of a finding key is the one the check reports)
+        if let Some(small) = shrink_unexplained(p, hist) {
+            if let Some(r) = run_real_in_worker(&small) {
+                let o2 = oracle_of(&small, &r, &mut Hist::default());
+                if o2.starts_with("FAIL:differs-from-C[unexplained]") {
+                    out.case(&small.encode(), &obs_of(&r), &o2);
+                }
+            }
+        }
+    }
     match &real {
         Real::Ok(t) => hist.add(&format!("real:ok-tokens-{}", (t.len() / 5 * 5).min(40))),
         Real::Err(e) => hist.add(&format!("real:err-{}", e.split('(').next().unwrap_or(""))),
